@@ -118,6 +118,9 @@ func rateOracle(rc gen.RateCase) func(string, *kit.Summary, *kase) {
 				viol(s, k, "rate_zero", "-rate=0 is not an unlimited rate", "accepted, Freq==0", out, nil)
 			}
 			if rc.Text != "0" && accepted {
+				if freq != 0 {
+					viol(s, k, "rate_zero", "an accepted -rate with N = 0 does not store a zero frequency", "Freq==0", out, nil)
+				}
 				if _, err := time.ParseDuration(rc.D); rc.D == "" || err != nil {
 					s.Count("rate.zero_with_malformed_unit_accepted")
 				}
@@ -233,36 +236,68 @@ type cmdline struct {
 	args  []string // real arguments
 	model []string // tokens of the model op
 	// documented meaning
-	rateWord   string // last -rate value
-	maxWorkers *uint64
-	headers    accum
-	connectTo  accum
-	maxBody    *big.Int
-	ttl        string
-	ok         bool
+	rateWord  string // last -rate value
+	lastRate  gen.RateCase
+	nRate     int
+	rateUnits map[string]bool // duration texts of the -rate flags so far ("" = none given)
+	nMaxBody  int
+	nTTL      int
+	// replay from arguments alone: parts of the documented meaning that are not rebuilt
+	skipMaxBody, skipAccum bool
+	maxWorkers             *uint64
+	headers                accum
+	connectTo              accum
+	maxBody                *big.Int
+	ttl                    string
+	ok                     bool
+}
+
+// goodRate: a -rate value the manual defines: N, N/unit, N/D with N ≥ 0 in int64 and a parsable D, or a special word.
+func goodRate(r *kit.Rng, kinds string) gen.RateCase {
+	for {
+		rc := gen.Rate(r)
+		ok := rc.Kind == "n" || rc.Kind == "nu" || rc.Kind == "nd" || rc.Text == "0" || rc.Kind == "word"
+		if !ok || (kinds != "" && !strings.Contains(kinds, rc.Kind)) {
+			continue
+		}
+		if rc.D != "" {
+			if _, err := time.ParseDuration(rc.D); err != nil {
+				continue
+			}
+		}
+		return rc
+	}
+}
+
+func (c *cmdline) addRate(rc gen.RateCase) {
+	c.args = append(c.args, "-rate="+rc.Text)
+	c.model = append(c.model, "rate", kit.HexS(rc.Text))
+	c.rateWord = rc.Text
+	c.lastRate = rc
+	c.nRate++
+	if c.rateUnits == nil {
+		c.rateUnits = map[string]bool{}
+	}
+	u := ""
+	if rc.Kind == "nu" || rc.Kind == "nd" {
+		u = rc.D
+	}
+	c.rateUnits[u] = true
 }
 
 func genCmdline(r *kit.Rng) *cmdline {
 	c := &cmdline{ok: true}
 	n := r.Pick(9)
+	// state carried from one occurrence of a flag to the next: often give -rate twice or three
+	// times with different units (a unit, then none; none, then a unit; a word in between)
+	repeatRate := r.Chance(0.35)
+	if repeatRate {
+		c.addRate(goodRate(r, r.PickStr([]string{"nu", "nd", "nu nd", "n", "word zero"})))
+	}
 	for i := 0; i < n; i++ {
 		switch r.Pick(7) {
 		case 0, 1:
-			var rc gen.RateCase
-			for {
-				rc = gen.Rate(r)
-				if rc.Kind == "n" || rc.Kind == "nu" || rc.Kind == "nd" || rc.Text == "0" || rc.Kind == "word" {
-					if rc.D != "" {
-						if _, err := time.ParseDuration(rc.D); err != nil {
-							continue
-						}
-					}
-					break
-				}
-			}
-			c.args = append(c.args, "-rate="+rc.Text)
-			c.model = append(c.model, "rate", kit.HexS(rc.Text))
-			c.rateWord = rc.Text
+			c.addRate(goodRate(r, ""))
 		case 2:
 			h := gen.Header(r)
 			if !h.OK {
@@ -283,6 +318,7 @@ func genCmdline(r *kit.Rng) *cmdline {
 			c.args = append(c.args, "-max-body="+sc.Text)
 			c.model = append(c.model, "maxbody", kit.HexS(sc.Text))
 			c.maxBody = sc.Bytes
+			c.nMaxBody++
 		case 4:
 			t := gen.TTL(r)
 			if t.Kind == "malformed" {
@@ -294,6 +330,7 @@ func genCmdline(r *kit.Rng) *cmdline {
 			c.args = append(c.args, "-dns-ttl="+t.Text)
 			c.model = append(c.model, "dnsttl", kit.HexS(t.Text))
 			c.ttl = t.Text
+			c.nTTL++
 		case 5:
 			ct := gen.ConnectTo(r)
 			if !ct.OK {
@@ -314,6 +351,10 @@ func genCmdline(r *kit.Rng) *cmdline {
 			c.model = append(c.model, "maxworkers", strconv.FormatUint(mw, 10))
 			c.maxWorkers = &mw
 		}
+	}
+	if repeatRate {
+		// the last -rate: prefer a form whose unit differs from an earlier one
+		c.addRate(goodRate(r, r.PickStr([]string{"n", "n", "nu", "nd", "zero", "word", "n nu nd"})))
 	}
 	return c
 }
@@ -346,6 +387,47 @@ func cmdlineOracle(c *cmdline) func(string, *kit.Summary, *kase) {
 		} else if guard == "guard" {
 			viol(s, k, "guard_spurious", "a limited rate demands -max-workers", "pass", out, nil)
 		}
+		s.Count(fmt.Sprintf("cmdline.rate_flags=%d", min(c.nRate, 3)))
+		if c.nRate >= 2 {
+			s.Count(fmt.Sprintf("cmdline.rate_repeated:distinct_units=%d", min(len(c.rateUnits), 3)))
+		}
+		if unlimitedWanted && c.maxWorkers != nil {
+			s.Count("cmdline.unlimited_with_max_workers")
+		}
+		// the last -rate wins and means exactly N per D, whatever earlier -rate flags said
+		if rc := c.lastRate; c.nRate > 0 && (rc.Kind == "n" || rc.Kind == "nu" || rc.Kind == "nd") {
+			d, err := time.ParseDuration(rc.D)
+			if err == nil && rc.N.IsInt64() && rc.N.Sign() > 0 {
+				if rc.Kind == "n" && c.nRate >= 2 && len(c.rateUnits) >= 2 {
+					s.Count("cmdline.rate_repeated:unit_then_bare")
+				}
+				if freq != rc.N.Int64() || per != int64(d) {
+					viol(s, k, "rate_meaning", "the last -rate flag does not mean N per D (D = 1s when absent)",
+						fmt.Sprintf("Freq=%s Per=%d", rc.N, int64(d)), fmt.Sprintf("Freq=%d Per=%d", freq, per),
+						map[string]interface{}{"kind": rc.Kind, "repeated": c.nRate >= 2})
+				}
+			}
+		}
+		// documented defaults of the flags that were not given (README usage: default 50/1s,
+		// max-workers 18446744073709551615, max-body -1, dns-ttl 0s)
+		if c.nRate == 0 && (freq != 50 || per != int64(time.Second)) {
+			viol(s, k, "cmdline_default", "default -rate is not 50/1s", "50 1000000000", f[1]+" "+f[2], map[string]interface{}{"flag": "rate"})
+		}
+		if c.maxWorkers == nil && f[3] != "18446744073709551615" {
+			viol(s, k, "cmdline_default", "default -max-workers is not 18446744073709551615", "18446744073709551615", f[3], map[string]interface{}{"flag": "max-workers"})
+		}
+		if c.maxBody == nil && !c.skipMaxBody && f[5] != "-1" {
+			viol(s, k, "cmdline_default", "default -max-body is not -1", "-1", f[5], map[string]interface{}{"flag": "max-body"})
+		}
+		if c.ttl == "" && f[6] != "0" {
+			viol(s, k, "cmdline_default", "default -dns-ttl is not 0s", "0", f[6], map[string]interface{}{"flag": "dns-ttl"})
+		}
+		if c.nMaxBody >= 2 {
+			s.Count("cmdline.max_body_repeated")
+		}
+		if c.nTTL >= 2 {
+			s.Count("cmdline.dns_ttl_repeated")
+		}
 		if c.maxWorkers != nil && f[3] != strconv.FormatUint(*c.maxWorkers, 10) {
 			viol(s, k, "cmdline_maxworkers", "-max-workers value lost", fmt.Sprint(*c.maxWorkers), f[3], nil)
 		}
@@ -363,7 +445,7 @@ func cmdlineOracle(c *cmdline) func(string, *kit.Summary, *kase) {
 			}
 		}
 		rest := strings.SplitN(out, " ", 8)[7]
-		if exp := c.headers.String() + " | " + c.connectTo.String(); rest != exp {
+		if exp := c.headers.String() + " | " + c.connectTo.String(); !c.skipAccum && rest != exp {
 			viol(s, k, "cmdline_accumulate", "repeated -header / -connect-to flags did not accumulate as documented", exp, rest, nil)
 		}
 	}
@@ -427,6 +509,9 @@ func runC19(c *run.Ctx, s *kit.Summary) {
 		want := "ok " + st + " " + exp
 		s.Case("headers:"+strings.Join(texts, "\x00"), len(texts) > 1)
 		s.Count(fmt.Sprintf("headers:n=%d", len(texts)))
+		if strings.Contains(exp, " 2 ") || strings.Contains(exp, " 3 ") {
+			s.Count("headers:repeated_key")
+		}
 		var or func(string, *kit.Summary, *kase)
 		if !mutated {
 			or = func(out string, s *kit.Summary, k *kase) {
@@ -436,6 +521,22 @@ func runC19(c *run.Ctx, s *kit.Summary) {
 			}
 		}
 		ks = append(ks, mk("headers", "flag.headers", "c19.headers", texts, or))
+	}
+	for _, t := range gen.HeaderMalformed {
+		t := t
+		for _, texts := range [][]string{{t}, {"A: 1", t, "A: 2"}} {
+			texts := texts
+			want := "ok e 0"
+			if len(texts) == 3 {
+				want = "ok kek 1 " + kit.HexS("A") + " 2 " + kit.HexS("1") + " " + kit.HexS("2")
+			}
+			ks = append(ks, mk("headers", "flag.headers", "c19.headers", texts, func(out string, s *kit.Summary, k *kase) {
+				s.Count("headers:fixed_malformed")
+				if out != want {
+					viol(s, k, "headers_accumulate", "malformed -header value accepted or it disturbed the accumulated headers", want, out, nil)
+				}
+			}))
+		}
 	}
 	runCases(c, s, "headers", ks)
 
@@ -503,6 +604,14 @@ func runC19(c *run.Ctx, s *kit.Summary) {
 			}
 		}))
 	}
+	for _, t := range gen.TTLMalformed {
+		ks = append(ks, mk("dnsttl", "flag.dnsttl", "c19.dnsttl", []string{t}, func(out string, s *kit.Summary, k *kase) {
+			s.Count("dnsttl:fixed_malformed")
+			if out != "err" {
+				viol(s, k, "dns_ttl_accepts_malformed", "malformed -dns-ttl accepted", "err", out, nil)
+			}
+		}))
+	}
 	runCases(c, s, "dnsttl", ks)
 
 	ks = nil
@@ -524,6 +633,20 @@ func runC19(c *run.Ctx, s *kit.Summary) {
 			}
 		}
 		ks = append(ks, mk("connectto", "flag.connectto", "c19.connectto", texts, or))
+	}
+	for _, t := range gen.ConnectToMalformed {
+		for _, texts := range [][]string{{t}, {"a:1:b:2", t, "a:1:c:3"}} {
+			want := "ok e 0 "
+			if len(texts) == 3 {
+				want = "ok kek 1 " + kit.HexS("a:1") + " 2 " + kit.HexS("b:2") + " " + kit.HexS("c:3") + " "
+			}
+			ks = append(ks, mk("connectto", "flag.connectto", "c19.connectto", texts, func(out string, s *kit.Summary, k *kase) {
+				s.Count("connectto:fixed_malformed")
+				if !strings.HasPrefix(out, want) {
+					viol(s, k, "connect_to_mapping", "malformed -connect-to value accepted or it disturbed the mapping", want, out, nil)
+				}
+			}))
+		}
 	}
 	runCases(c, s, "connectto", ks)
 
@@ -589,6 +712,19 @@ func runC19(c *run.Ctx, s *kit.Summary) {
 			}
 		}))
 	}
+	for _, t := range gen.ResolverMalformed {
+		for _, text := range []string{t, "1.2.3.4," + t, t + ",1.2.3.4:53"} {
+			if strings.Contains(t, ",") {
+				continue
+			}
+			ks = append(ks, mk("resolvers", "flag.resolvers", "c19.resolvers", []string{text}, func(out string, s *kit.Summary, k *kase) {
+				s.Count("resolvers:fixed_malformed")
+				if out != "err" {
+					viol(s, k, "resolver_normalisation", "a resolver list with an address that is not ip[:port] was accepted", "err", out, nil)
+				}
+			}))
+		}
+	}
 	runCases(c, s, "resolvers", ks)
 
 	ks = nil
@@ -607,10 +743,25 @@ func runC19(c *run.Ctx, s *kit.Summary) {
 		k := &kase{Op: "rotation", Text: append([]string{strconv.Itoa(cnt)}, addrs...), Args: h,
 			impl:  "resolver.rotation " + strconv.Itoa(cnt) + " " + strings.Join(h, " "),
 			model: "c19.rotation " + strconv.Itoa(cnt) + " " + strings.Join(h, " ")}
-		want := "ok " + strings.Join(exp, " ")
+		_ = exp
 		k.oracle = func(out string, s *kit.Summary, k *kase) {
-			if out != want {
-				viol(s, k, "resolver_rotation", "resolver addresses are not used in rotation", want, out, nil)
+			// the manual does not say which address is used first: any cyclic rotation over all of them
+			f := strings.Fields(out)
+			ok := len(f) == cnt+1 && f[0] == "ok"
+			if ok {
+				ok = false
+				for off := 0; off < n && !ok; off++ {
+					ok = true
+					for j := 0; j < cnt; j++ {
+						if f[j+1] != kit.HexS(addrs[(j+off)%n]) {
+							ok = false
+							break
+						}
+					}
+				}
+			}
+			if !ok {
+				viol(s, k, "resolver_rotation", "resolver addresses are not used in rotation", "a cyclic rotation over "+strings.Join(addrs, ","), out, nil)
 			}
 		}
 		s.Case("rotation:"+k.impl, n > 1)
@@ -629,6 +780,39 @@ func runC19(c *run.Ctx, s *kit.Summary) {
 		ks = append(ks, k)
 	}
 	runCases(c, s, "cmdline", ks)
+}
+
+// rateCaseOfText: what the manual says a -rate text means (N, N/unit, N/D, the special words).
+func rateCaseOfText(t string) gen.RateCase {
+	switch t {
+	case "infinity":
+		return gen.RateCase{Text: t, Kind: "word"}
+	case "0":
+		return gen.RateCase{Text: t, Kind: "zero", N: big.NewInt(0), D: "1s"}
+	}
+	nb, db, has := strings.Cut(t, "/")
+	n, ok := new(big.Int).SetString(strings.TrimPrefix(nb, "+"), 10)
+	if !ok || strings.ContainsAny(nb, "_ ") {
+		return gen.RateCase{Text: t, Kind: "mutated"}
+	}
+	rc := gen.RateCase{Text: t, Kind: "n", N: n, D: "1s"}
+	if has {
+		rc.Kind, rc.D = "nd", db
+		for _, u := range gen.RateUnits {
+			if db == u {
+				rc.Kind, rc.D = "nu", "1"+u
+			}
+		}
+	}
+	switch {
+	case !n.IsInt64():
+		rc.Kind = "big"
+	case n.Sign() < 0:
+		rc.Kind = "neg"
+	case n.Sign() == 0:
+		rc.Kind = "zero"
+	}
+	return rc
 }
 
 // replay: {"input": {"op":…, "args_hex":[…], "args_text":[…]}} — re-run that one case with the stream's oracle.
@@ -675,22 +859,15 @@ func loadCase(path string) (*kase, string) {
 	var k *kase
 	switch rec.Input.Op {
 	case "rate":
-		rc := gen.RateCase{Text: args[0], Kind: "mutated"}
-		switch {
-		case args[0] == "infinity":
-			rc.Kind = "word"
-		case args[0] == "0":
-			rc.Kind = "zero"
-		default:
-			for _, m := range gen.RateMalformed {
-				if m == args[0] {
-					rc.Kind = "malformed"
-				}
+		rc := rateCaseOfText(args[0])
+		for _, m := range gen.RateMalformed {
+			if m == args[0] {
+				rc = gen.RateCase{Text: args[0], Kind: "malformed"}
 			}
 		}
 		k = mk("rate", "flag.rate", "c19.rate", args, rateOracle(rc))
 	case "cmdline":
-		cl := &cmdline{ok: true}
+		cl := &cmdline{ok: true, skipAccum: true}
 		for i := 0; i < len(args); i++ {
 			a := args[i]
 			name, val, _ := strings.Cut(strings.TrimLeft(a, "-"), "=")
@@ -701,7 +878,23 @@ func loadCase(path string) (*kase, string) {
 			tok := map[string]string{"rate": "rate", "header": "header", "max-body": "maxbody", "dns-ttl": "dnsttl", "connect-to": "connectto"}[name]
 			switch name {
 			case "rate":
+				rc := rateCaseOfText(val)
 				cl.rateWord = val
+				cl.lastRate = rc
+				cl.nRate++
+				if cl.rateUnits == nil {
+					cl.rateUnits = map[string]bool{}
+				}
+				u := ""
+				if rc.Kind == "nu" || rc.Kind == "nd" {
+					u = rc.D
+				}
+				cl.rateUnits[u] = true
+			case "max-body":
+				cl.skipMaxBody = true
+			case "dns-ttl":
+				cl.ttl = val
+				cl.nTTL++
 			case "max-workers":
 				mw, _ := strconv.ParseUint(val, 10, 64)
 				cl.maxWorkers = &mw
@@ -711,24 +904,9 @@ func loadCase(path string) (*kase, string) {
 			cl.model = append(cl.model, tok, kit.HexS(val))
 		}
 		h := hexAll(args)
-		// only the rate/guard part of the oracle can be rebuilt from the arguments alone
+		// the header / connect-to / max-body parts of the oracle are not rebuilt from the arguments alone
 		k = &kase{Op: "cmdline", Text: args, Args: h, impl: strings.TrimRight("attack.cmdline "+strings.Join(h, " "), " "),
-			model: strings.TrimRight("c19.cmdline "+strings.Join(cl.model, " "), " ")}
-		k.oracle = func(out string, s *kit.Summary, k *kase) {
-			f := strings.Fields(out)
-			if len(f) < 5 || (cl.rateWord != "infinity" && cl.rateWord != "0") {
-				return
-			}
-			wantGuard := cl.maxWorkers == nil || *cl.maxWorkers == math.MaxUint64
-			if (f[1] != "0" && f[2] != "0") || (wantGuard && f[4] != "guard") {
-				kind := "rate_infinity_ignored"
-				if cl.rateWord == "0" {
-					kind = "rate_zero_unguarded"
-				}
-				viol(s, k, kind, "-rate="+cl.rateWord+": rate stays limited and -max-workers is not demanded", "unlimited rate; guard", out,
-					map[string]interface{}{"value": cl.rateWord})
-			}
-		}
+			model: strings.TrimRight("c19.cmdline "+strings.Join(cl.model, " "), " "), oracle: cmdlineOracle(cl)}
 	default:
 		implOp := map[string]string{"ratestring": "flag.ratestring", "headers": "flag.headers", "maxbody": "flag.maxbody", "dnsttl": "flag.dnsttl",
 			"connectto": "flag.connectto", "csl": "flag.csl", "resolvers": "flag.resolvers", "rotation": "resolver.rotation"}[rec.Input.Op]
